@@ -404,8 +404,16 @@ fn diamond_world(rng: &mut Rng) -> (FcWorld, GenInfo, Option<Forced>) {
     w.add(&format!("{}mod.ts", base(e)), "export type ET = boolean;\nexport interface EI { e: ET; }\n");
   }
   let without_d = |r: usize| format!("export interface R{}I {{ own: string; }}\n", r);
-  for r in &referrers {
+  // the dependency leaves the referrer's PUBLIC API but stays imported (used in a function body only)
+  let private_d = |r: usize| format!("import {{ DC }} from \"jsr:@s/p{}@1\";\nfunction priv{}(): unknown {{ return new DC(); }}\nexport interface R{}I {{ own: string; }}\n", d, r, r);
+  // sometimes only ONE referrer references D (then nothing else keeps D among the handled packages)
+  let solo = rng.chance(35);
+  for (ri, r) in referrers.iter().enumerate() {
     let r = *r;
+    if solo && ri > 0 {
+      w.add(&format!("{}mod.ts", base(r)), &without_d(r));
+      continue;
+    }
     let uses = match rng.below(5) {
       0 => format!("import type {{ DT }} from \"jsr:@s/p{}@1\";\nexport interface R{}I {{ d: DT; own: string; }}\n", d, r),
       1 => format!("export interface R{}I {{ d: import(\"jsr:@s/p{}@1\").DT; own: string; }}\n", r, d),
@@ -433,8 +441,12 @@ fn diamond_world(rng: &mut Rng) -> (FcWorld, GenInfo, Option<Forced>) {
   w.add("file:///mod.ts", &root_of(&tops));
   let forced = match rng.below(10) {
     0..=3 => {
-      let r = *rng.pick(&referrers);
-      Some((format!("{}mod.ts", base(r)), without_d(r), format!("diamond: referrer p{} stops using the shared dependency p{}", r, d)))
+      let r = if solo { referrers[0] } else { *rng.pick(&referrers) };
+      if rng.chance(50) {
+        Some((format!("{}mod.ts", base(r)), private_d(r), format!("diamond: referrer p{} keeps importing the shared dependency p{} but no longer exposes it", r, d)))
+      } else {
+        Some((format!("{}mod.ts", base(r)), without_d(r), format!("diamond: referrer p{} stops using the shared dependency p{}", r, d)))
+      }
     }
     4..=6 => {
       let r = *rng.pick(&referrers);
